@@ -176,6 +176,7 @@ func (fv *FnV) deref(st *State, p Val, n ast.Node) Val {
 		return p
 	}
 	if !fv.smt.isHeapPtr(pt) {
+		fv.tag("value-pointers")
 		return Val{p.T, pt.Elem()}
 	}
 	// load whole struct from heap
@@ -933,6 +934,12 @@ func shlAmount(t string) (int, bool) {
 // ------------------------------------------------------------------ assignment
 
 func (fv *FnV) assign(st *State, lhs ast.Expr, v Val) {
+	if isNilVal(v) {
+		// untyped nil takes the zero value of the destination's type (nil slice, nil pointer, ...)
+		if lt := fv.typeOf(lhs); lt != nil {
+			v = fv.convertTo(v, lt)
+		}
+	}
 	switch x := lhs.(type) {
 	case *ast.ParenExpr:
 		fv.assign(st, x.X, v)
@@ -969,6 +976,7 @@ func (fv *FnV) assign(st *State, lhs ast.Expr, v Val) {
 			return
 		}
 		// pointer to value: update the variable that holds the pointee
+		fv.tag("value-pointers")
 		fv.assign(st, x.X, Val{v.T, pt})
 	case *ast.SelectorExpr:
 		sel := fv.prog.Info.Selections[x]
